@@ -327,8 +327,10 @@ func run(c *hl.Ctx) {
 		history(c, 4)
 	}
 	objHistory(c)
-	c.Rule("E3 bounded-exhaustive: all 65536 two-byte ASC values; accepted configs (420) x raw lengths; 2-3 frame concatenations; reference-writer frames over id x protection x profile x sfi x channels x header bits x fullness x lengths. Non-trivial = distinct case that decoded successfully to a non-empty raw block (or accepted ASC). Object-history family: one ADTS object goes through every history of depth 0..2 (thorough: 0..3, depth 3 over a thinner alphabet) over {SetASC, write through ASC() - each for the 5 object types x (sfi,channels) in (4,2),(1,1),(12,7); Encode; Decode of a library-encoded frame of each object type or of an ISO-writer frame of each profile x id x protection; 4 failing Decodes; 5 rejected SetASCs}, then decodes one frame out of {library encoder x 420 accepted configs, ISO writer x id x protection x profile x sfi x channels (1008)} (quick, depth 2: only the 85 frames with (sfi,channels) at the corners of the ranges or (4,2)); the raw block, the profile/sfi/channels reported by ASC() afterwards and the header of a following Encode must be those of the frame just decoded. Non-trivial there = all of these held for a distinct (history, frame).")
+	encHistory(c)
+	c.Rule("E3 bounded-exhaustive: all 65536 two-byte ASC values; accepted configs (420) x raw lengths; 2-3 frame concatenations; reference-writer frames over id x protection x profile x sfi x channels x header bits x fullness x lengths. Non-trivial = distinct case that decoded successfully to a non-empty raw block (or accepted ASC). Object-history family: one ADTS object goes through every history of depth 0..2 (thorough: 0..3, depth 3 over a thinner alphabet) over {SetASC, write through ASC() - each for the 5 object types x (sfi,channels) in (4,2),(1,1),(12,7); Encode; Decode of a library-encoded frame of each object type or of an ISO-writer frame of each profile x id x protection; 4 failing Decodes; 5 rejected SetASCs}, then decodes one frame out of {library encoder x 420 accepted configs, ISO writer x id x protection x profile x sfi x channels (1008)} (quick, depth 2: only the 85 frames with (sfi,channels) at the corners of the ranges or (4,2)); the raw block, the profile/sfi/channels reported by ASC() afterwards and the header of a following Encode must be those of the frame just decoded. Non-trivial there = all of these held for a distinct (history, frame). Encode-history family: ONE ADTS object with an unchanged configuration encodes every sequence of 1, 2 and 3 (thorough: 4) raw blocks with lengths from {1,2,24,25,249,250,300,2040,2041,2042,4088,4089,6136,6137,8183,8184} (frame lengths at the boundaries of the 13-bit aac_frame_length bits held by header bytes 3, 4, 5), for 7 configurations - one per channel configuration 1..7, all 5 object types (thorough, length <= 3: 5 object types x sfi {1,4,12} x channels 1..7 = 105) - in 3 modes (plain; the encoding object decodes each frame it just produced; SetASC of the same bytes before every further Encode); every output is read by the ISO parser (advertised length = 7 + raw length = bytes returned, layer, blocks, profile/sfi/channels, raw block, nothing left), decoded by a fresh object (and by the encoding object in the second mode) to the same raw block and configuration, earlier outputs must be unchanged at the end and the concatenation of all outputs decodes frame by frame with each remainder at the next sync word. Non-trivial there = all of these held for a distinct (length, configuration, mode, length tuple).")
 	c.Assume("reference ADTS writer/parser written from ISO/IEC 13818-7 6.2 is correct", "payload bytes are a fixed position-dependent pattern with embedded 0xFFF1 lookalikes",
+		"encode-history family: raw blocks are a fixed position-dependent pattern that differs per position in the sequence and per length; the configuration is never changed during a history (changes of configuration between Encodes are the history/ and objhist/ families)",
 		"object-history family: history steps outside the statement (failing Decode, rejected SetASC, Encode without a configuration) only put the object into a state, their own results are not judged; the reported ADTS profile is Object.ToProfile() as in the other families")
 	checkASC(c)
 
@@ -484,6 +486,10 @@ func replay(c *hl.Ctx, raw json.RawMessage) {
 	}
 	if json.Unmarshal(raw, &part) == nil && part.Part == "objhist" {
 		replayObjHist(c, raw)
+		return
+	}
+	if part.Part == "enchist" {
+		replayEncHist(c, raw)
 		return
 	}
 	var cs encCase
